@@ -122,6 +122,7 @@ type world struct {
 
 	step    int      // step in progress (for log lines)
 	steplog []string // log lines of the transition being computed
+	quiet   bool     // preparation: no log lines
 }
 
 func (w *world) fn(_ context.Context, _ string, req *fnv1.RunFunctionRequest) (*fnv1.RunFunctionResponse, error) {
@@ -242,6 +243,7 @@ func (w *world) historyState() *state {
 	if memo.history == nil {
 		w.adopt(w.initialState())
 		w.materialize()
+		w.quiet = true
 		for _, id := range []string{"A", "B", "C"} {
 			w.setContent(id)
 			w.realRevReconcile(false, nil)
@@ -252,6 +254,7 @@ func (w *world) historyState() *state {
 		if got := describe(w.revisions()); got != "A#1 B#2 C#3" {
 			panic(explore.HarnessError{Msg: "history preparation: " + got})
 		}
+		w.quiet = false
 		memo.history = w.snapshot()
 	}
 	return memo.history
